@@ -18,6 +18,20 @@ pub struct Case {
     /// appenders (by declaration index) that report an error after recording the delivery
     #[serde(default)]
     pub failing: Vec<bool>,
+    /// earlier on this thread, through another logger, this many records ended in an appender that panicked (the
+    /// caller caught each panic - a worker pool that survives panics); routing afterwards is as for any record
+    #[serde(default)]
+    pub prior_panics: u8,
+}
+
+#[derive(Debug)]
+struct Panicker;
+
+impl log4rs::append::Append for Panicker {
+    fn append(&self, _: &log::Record) -> anyhow::Result<()> {
+        panic!("appender panics")
+    }
+    fn flush(&self) {}
 }
 
 pub fn strategy() -> impl Strategy<Value = Case> {
@@ -26,9 +40,9 @@ pub fn strategy() -> impl Strategy<Value = Case> {
         raw_targets(2..=6),
         prop::collection::vec(any::<u16>(), 8),
         prop::collection::vec(any::<u16>(), 5),
-        prop_oneof![2 => Just(vec![]), 1 => prop::collection::vec(prop::bool::weighted(0.4), 5)],
+        (prop_oneof![2 => Just(vec![]), 1 => prop::collection::vec(prop::bool::weighted(0.4), 5)], prop_oneof![9 => Just(0u8), 1 => 1u8..12]),
     )
-        .prop_map(|(raw, rt, pl, pa, failing)| {
+        .prop_map(|(raw, rt, pl, pa, (failing, prior_panics))| {
             let cfg = resolve(&raw);
             let mut targets: Vec<String> = rt
                 .iter()
@@ -41,6 +55,7 @@ pub fn strategy() -> impl Strategy<Value = Case> {
                 perm_appenders: pa,
                 targets,
                 failing,
+                prior_panics,
             }
         })
 }
@@ -68,6 +83,18 @@ pub fn permute(cfg: &LCfg, pl: &[u16], pa: &[u16]) -> LCfg {
 
 pub fn check(case: &Case, obs: &mut Obs) -> CaseResult {
     let cfg = &case.cfg;
+    if case.prior_panics > 0 {
+        let c = log4rs::Config::builder()
+            .appender(log4rs::config::Appender::builder().build("p", Box::new(Panicker)))
+            .build(log4rs::config::Root::builder().appender("p").build(log::LevelFilter::Trace))
+            .unwrap();
+        let other = log4rs::Logger::new(c);
+        for _ in 0..case.prior_panics {
+            let r = catch(|| with_record("t", log::Level::Info, "p", |r| other.log(r)));
+            ensure!(r.is_err(), "C01:dropped-after-panics", "a record for a logger whose only appender panics was not delivered to it (no panic arrived)");
+        }
+        obs.class("after-caught-appender-panics-on-this-thread");
+    }
     let sink = new_sink();
     // errors go to a handler that only counts them (the default handler would write to stderr)
     let config = match build_config_failing(cfg, &sink, "", &case.failing) {
